@@ -982,6 +982,7 @@ class Formulas:
         self.ctx = ctx
         self.interest_adts = set(ctx.spec["interests_adt"].values())
         self._pc_cache = {}
+        self.param_subst = {}       # local id of a helper's Option parameter -> formula of the caller's argument being Some
 
     def cond(self, e, scope=None, root=None, depth=0):
         """`scope` identifies the match whose arms compare the attribute name (the name variable is per dispatch match);
@@ -1100,7 +1101,7 @@ class Formulas:
         c = H.ctor_of(H.peel(init))
         return bool(c and c[1] == "None")
 
-    def fill_sites(self, root, lid):
+    def fill_sites(self, root, lid, depth=0):
         """Nodes that can make the option local Some; None if the local escapes in a way we do not model."""
         sites = []
         for n, parents in H.walk_with_parents(root):
@@ -1121,7 +1122,18 @@ class Formulas:
                         sites.append(p)
                     # as_mut / as_ref / is_some / take / front ...: cannot turn None into Some
                 elif pk in ("call", "mcall") and child.get("k") == "ref" and child.get("mut"):
-                    return None     # &mut x handed to something else
+                    # &mut x handed to something else: fine if that is a helper of the reader which itself never fills the option
+                    cal = p.get("callee") or {}
+                    hb = self.ctx.duke.by_key.get(cal.get("inst_key") or cal.get("key")) if pk == "call" else None
+                    pos = next((j for j, a in enumerate(p.get("args") or []) if a is child), None)
+                    harmless = False
+                    if hb is not None and pos is not None and isinstance(hb.get("body"), dict) and pos < len(hb.get("params") or []) and depth < 3:
+                        ids = [j for j, _ in H.pat_bindings(hb["params"][pos])]
+                        if len(ids) == 1:
+                            inner = self.fill_sites(hb["body"], ids[0], depth + 1)
+                            harmless = inner == []
+                    if not harmless:
+                        return None
         return sites
 
     OPTION_PASS = ("as_mut", "as_ref", "as_deref", "as_deref_mut", "take", "map", "and_then", "filter", "cloned", "copied", "clone",
@@ -1156,8 +1168,28 @@ class Formulas:
             return f
         if k == "mcall" and e0["name"] in ("then", "then_some") and e0["recv"].get("ty") == "bool":
             return self.cond(e0["recv"], None, root, depth + 1)
+        if k == "call" and depth < 5 and ty_is_option(e0.get("ty")):
+            # a private helper of the reader that computes the optional value (`take_stack_map_frame_at(&mut frames, &label)`): Some only
+            # if its own result can be Some, with its Option parameters standing for the caller's arguments
+            cal = e0.get("callee") or {}
+            hb = self.ctx.duke.by_key.get(cal.get("inst_key") or cal.get("key"))
+            if hb is not None and hb["path"].startswith(CR) and isinstance(hb.get("body"), dict) and len(hb.get("params") or []) == len(e0["args"]):
+                sub = {}
+                for prm, arg in zip(hb["params"], e0["args"]):
+                    ids = [i for i, _ in H.pat_bindings(prm)]
+                    if len(ids) == 1 and "core::option::Option<" in (prm.get("ty") or ""):
+                        sub[ids[0]] = self.option_some(root, arg, 0)
+                old = self.param_subst
+                self.param_subst = dict(old)
+                self.param_subst.update(sub)
+                try:
+                    return self.option_some(hb["body"], hb["body"], max(0, depth - 1))
+                finally:
+                    self.param_subst = old
         loc = H.local_of(e0)
         if loc:
+            if loc[0] in self.param_subst:
+                return self.param_subst[loc[0]]
             if self.none_initialised(root, loc[0]):
                 return self.local_some(root, loc[0], depth)
             init = H.let_init_of(root, loc[0])
